@@ -20,6 +20,9 @@ thread_local! {
     static PEAK: Cell<usize> = const { Cell::new(0) };
     static LARGEST: Cell<usize> = const { Cell::new(0) };
     static REFUSED: Cell<u64> = const { Cell::new(0) };
+    /// fault injection: fail the allocation when this countdown reaches 0 (-1 = off)
+    static FAIL_IN: Cell<i64> = const { Cell::new(-1) };
+    static FAIL_FIRED: Cell<bool> = const { Cell::new(false) };
 }
 
 /// A single request above this size while armed is refused (returns null); the crate then
@@ -27,7 +30,27 @@ thread_local! {
 pub const REFUSE_ABOVE: usize = 1 << 30;
 
 #[inline]
+fn inject_failure() -> bool {
+    FAIL_IN.with(|f| {
+        let v = f.get();
+        if v < 0 {
+            return false;
+        }
+        if v == 0 {
+            f.set(-1);
+            FAIL_FIRED.with(|x| x.set(true));
+            return true;
+        }
+        f.set(v - 1);
+        false
+    })
+}
+
+#[inline]
 fn on_alloc(size: usize) -> bool {
+    if inject_failure() {
+        return false;
+    }
     ARMED.with(|a| {
         if !a.get() {
             return true;
@@ -120,4 +143,22 @@ pub fn measure<T>(f: impl FnOnce() -> T) -> (T, AllocReport) {
         refused: REFUSED.with(|c| c.get()),
     };
     (r, rep)
+}
+
+/// Fault injection: runs `f` with the `n`-th (0-based) heap allocation / growing reallocation of
+/// the current thread failing (the allocator returns null exactly once). `f` must not allocate
+/// outside the code under test. Returns (result, whether the failure was actually injected).
+pub fn with_alloc_failure<T>(n: u32, f: impl FnOnce() -> T) -> (T, bool) {
+    struct Off;
+    impl Drop for Off {
+        fn drop(&mut self) {
+            FAIL_IN.with(|x| x.set(-1));
+        }
+    }
+    FAIL_FIRED.with(|x| x.set(false));
+    FAIL_IN.with(|x| x.set(n as i64));
+    let guard = Off;
+    let r = f();
+    drop(guard);
+    (r, FAIL_FIRED.with(|x| x.get()))
 }
